@@ -5,6 +5,7 @@ import RedoModel.LogRec
 import RedoModel.Commit
 import RedoModel.DepsWire
 import RedoModel.TokensWire
+import RedoModel.SqlTxnWire
 open RedoModel RedoModel.Wire
 
 def decList (s : String) : Option (List (List Char)) :=
@@ -106,6 +107,7 @@ def respond (line : String) : String :=
     | _, _, _, _ => "bad-op"
   | ["deps-run", d, n, rules, ops] => DepsWire.respond d n rules ops
   | ["tokens-replay", k, evs] => TokensWire.respond k evs
+  | ["sqltxn-replay", evs] => SqlTxnWire.respond evs
   | _ => "bad-op"
 
 partial def loop (h : IO.FS.Stream) (out : IO.FS.Stream) : IO Unit := do
